@@ -313,9 +313,10 @@ func rulesC13(r *Run) {
 	r.Expect("R5", 1)
 
 	// ---- R7 fresh attempt per element
-	ruleDecodeAttempts(r, "R7")
+	ruleDecodeAttempts(r, "R7", sqlKey("decodeAttempts"))
+	ruleDecodeAttempts(r, "R7", cosKey("decodeAttempts"))
 	ruleTimeDecoding(r, "R7")
-	r.Expect("R7", 2)
+	r.Expect("R7", 3)
 
 	// ---- R6 cosmosdb
 	rulesCosmosRoundTrip(r, "R6")
@@ -534,8 +535,8 @@ func ruleNotFound(r *Run, rule string, m *sqliteModel) {
 }
 
 // ruleDecodeAttempts: each stored attempt is decoded into a value allocated inside the loop.
-func ruleDecodeAttempts(r *Run, rule string) {
-	fn := r.fnByKey(rule, sqlKey("decodeAttempts"))
+func ruleDecodeAttempts(r *Run, rule string, key string) {
+	fn := r.fnByKey(rule, key)
 	if fn == nil {
 		return
 	}
@@ -588,6 +589,35 @@ func ruleDecodeAttempts(r *Run, rule string) {
 					}
 					return true
 				})
+				// nothing reference-typed in the literal may come from outside the loop (shared between attempts)
+				shared := ""
+				ast.Inspect(rs.Body, func(y ast.Node) bool {
+					cl, ok := y.(*ast.CompositeLit)
+					if !ok {
+						return true
+					}
+					if tv, ok := info.Types[cl]; !ok || ShortType(tv.Type) != "workflow.Attempt" {
+						return true
+					}
+					for _, el := range cl.Elts {
+						kv, ok := el.(*ast.KeyValueExpr)
+						if !ok {
+							continue
+						}
+						if o := ObjOf(info, kv.Value); o != nil && (o.Pos() < rs.Body.Pos() || o.Pos() > rs.Body.End()) {
+							switch o.Type().Underlying().(type) {
+							case *types.Pointer, *types.Interface, *types.Slice, *types.Map:
+								shared = ExprStr(kv.Key) + ": " + o.Name()
+							}
+						}
+					}
+					return true
+				})
+				if fresh && shared != "" {
+					fresh = false
+					msg = "every decoded attempt is initialised with the same value computed outside the loop (" + shared + "): with a pointer-typed response all attempts of an action alias one object and read back as the last attempt"
+					return true
+				}
 				if fresh {
 					okFresh, msg = true, ""
 				} else {
@@ -600,7 +630,7 @@ func ruleDecodeAttempts(r *Run, rule string) {
 		})
 		return true
 	})
-	r.Check(rule, "decodeAttempts:fresh-value-per-attempt", fn.Decl.Pos(), okFresh, "%s", orOK(msg, "a := &workflow.Attempt{…} inside the loop"))
+	r.Check(rule, "decodeAttempts:fresh-value-per-attempt:"+strings.Split(ShortFn(key), ".")[0], fn.Decl.Pos(), okFresh, "%s", orOK(msg, "a := &workflow.Attempt{…} inside the loop"))
 }
 
 // ruleTimeDecoding: timeFromField decodes nanoseconds.
